@@ -155,6 +155,9 @@ func (p *vPair) exchange(dup bool) (toF, toL int) {
 			continue
 		}
 		toL++
+		if back[i].Type == pb.ReplicateResp && !back[i].Reject {
+			p.pL.ackFrom, p.pL.ackIndex = back[i].From, back[i].LogIndex
+		}
 		vAssert(lp.Handle(back[i]) == nil, "pair-noerr-L")
 	}
 	return
